@@ -196,6 +196,10 @@ impl VM {
         self.frames[0].ip = 0;
         self.frames[0].base_pointer = 0;
 
+        // a previous run that ended in an error may have left call frames and operands behind
+        self.frames.truncate(1);
+        self.stack.clear();
+
         // Keep your friends close
         let constants = code.constants;
         let mut final_result = Object::null();
